@@ -1,6 +1,7 @@
 # C12 Disconnection is final and reported exactly once, with the first reason
 import re
 from sa.rules import *
+import rules.wave3 as W3
 
 RC = "remote_connection::RenetClient"
 RS = "server::RenetServer"
@@ -119,4 +120,5 @@ def rules(t):
         r.site(s)
         if not s.fn.path.endswith(allowed): r.bad(f"{s.fn.path}|{method_of(callee_name(s.node))}", s, f"{short(s.fn.path)} changes connections/events")
     out.append(r)
+    out.append(W3.event_fifo(t, "C12.d"))
     return out
